@@ -1,5 +1,139 @@
-(* C14 — property theorems.  Nothing but statements, `exact`, Print Assumptions. *)
-From G14 Require Import Model Spec Check Obligations.
+(* C14 — property theorems.  Nothing but statements, `exact`, Print Assumptions.
 
-Example T14_placeholder : dnsDomainIs (b "www.x.com") (b ".x.com") = true.
-Proof. exact eq_refl. Qed.
+   Vocabulary: G14.Js/Net are the hand transcription of pac/ascii_pac_utils.js and of the Go helpers;
+   G14.Spec is the reference ("standard PAC semantics": glob, suffix, dot count, masked octets, ...);
+   [call_helper e] / [spec_call e] evaluate one helper call under the model / the reference with the
+   resolver tables [e]; [find_proxy] is NewProxyResolver's entry-point rule followed by FindProxyForURL
+   (script, then the checks on the result); [parse_proxy], [proxies_first], [proxy_url] are pac/proxy.go. *)
+From Coq Require Import Permutation.
+From G14 Require Import Model Spec Check ProofsBasic ProofsPool ProofsParse ProofsGlob ProofsNet ProofsAll Obligations.
+Open Scope N_scope.
+
+(* shExpMatch is shell-expression (glob) matching: for every pattern made of literals, '.', '*', '?' and
+   every text without line terminators — translation correctness of the three textual rewrites
+   followed by an anchored regular-expression match. *)
+Theorem T14_shexp_is_glob : forall url pattern,
+  glob_domain url pattern = true -> shExpMatch url pattern = if glob pattern url then Yes else No.
+Proof. exact (fun url pattern => shexp_is_glob url pattern ob_shexp_rewrites ob_shexp_anchored). Qed.
+Print Assumptions T14_shexp_is_glob.
+
+(* isInNet is masked equality of the four octets (the 32-bit << | & arithmetic included), for all
+   strings: invalid pattern or mask = false, host literal or its first IPv4 address. *)
+Theorem T14_isInNet_is_mask : forall e host pattern mask,
+  env_quads e -> isInNet e host pattern mask = spec_isInNet e host pattern mask.
+Proof. exact (isInNet_is_mask ob_ip_octet_max (proj1 ob_convert_shape) (proj2 ob_convert_shape)). Qed.
+Print Assumptions T14_isInNet_is_mask.
+
+(* the bit-level core, for all octets *)
+Theorem T14_masked_equality_bits : forall h0 h1 h2 h3 p0 p1 p2 p3 m0 m1 m2 m3,
+  byte h0 -> byte h1 -> byte h2 -> byte h3 -> byte p0 -> byte p1 -> byte p2 -> byte p3 ->
+  byte m0 -> byte m1 -> byte m2 -> byte m3 ->
+  (Z.land (U4 h0 h1 h2 h3) (U4 m0 m1 m2 m3) = Z.land (U4 p0 p1 p2 p3) (U4 m0 m1 m2 m3) <->
+   Z.land h0 m0 = Z.land p0 m0 /\ Z.land h1 m1 = Z.land p1 m1 /\ Z.land h2 m2 = Z.land p2 m2 /\ Z.land h3 m3 = Z.land p3 m3).
+Proof. exact masked_eq_iff. Qed.
+Print Assumptions T14_masked_equality_bits.
+
+Theorem T14_dnsDomainIs_suffix : forall host dom, dnsDomainIs host dom = true <-> exists pre, host = pre ++ dom.
+Proof. exact dnsDomainIs_suffix. Qed.
+Print Assumptions T14_dnsDomainIs_suffix.
+
+Theorem T14_levels_count_dots : forall host, dnsDomainLevels host = count_byte 46 host.
+Proof. exact levels_count_dots. Qed.
+Print Assumptions T14_levels_count_dots.
+
+Theorem T14_plain_iff_no_dot_colon : forall host,
+  isPlainHostName host = negb (has_byte 46 host) && negb (has_byte 58 host).
+Proof. exact plain_no_dot_colon. Qed.
+Print Assumptions T14_plain_iff_no_dot_colon.
+
+Theorem T14_localHostOrDomainIs : forall host hostdom,
+  localHostOrDomainIs host hostdom = true <-> host = hostdom \/ exists rest, hostdom = host ++ [46] ++ rest.
+Proof. exact localHostOrDomainIs_spec. Qed.
+Print Assumptions T14_localHostOrDomainIs.
+
+(* every helper call gives what the reference gives, or its arguments are outside the reference's domain
+   (only: a shExpMatch pattern with a regexp metacharacter other than . * ?, or a line terminator in the text) *)
+Theorem T14_helpers_meet_reference : forall e h args,
+  env_quads e -> spec_call e h args = OutsideModel \/ call_helper e h args = spec_call e h args.
+Proof. exact (helpers_meet_reference ob_shexp_rewrites ob_shexp_anchored ob_ip_octet_max ob_convert_shape). Qed.
+Print Assumptions T14_helpers_meet_reference.
+
+(* ... and so does every decision-tree script, through the entry-point rule and the result checks *)
+Theorem T14_script_meets_reference : forall e has_fn has_fnx t url hostname url_hostname,
+  env_quads e ->
+  find_proxy (spec_call e) has_fn has_fnx t url hostname url_hostname = Some PacOutside \/
+  find_proxy (call_helper e) has_fn has_fnx t url hostname url_hostname =
+  find_proxy (spec_call e) has_fn has_fnx t url hostname url_hostname.
+Proof. exact (find_proxy_meets_reference ob_shexp_rewrites ob_shexp_anchored ob_ip_octet_max ob_convert_shape). Qed.
+Print Assumptions T14_script_meets_reference.
+
+(* sortIpAddressList: a permutation of its entries, IPv6 first, each family ascending *)
+Theorem T14_sort_is_sorted_perm : forall l,
+  Permutation l (sort_ips l) /\ sorted_by ip_le (map fst (sort_ips l)) = true.
+Proof. exact (fun l => conj (sort_perm l) (sort_sorted l)). Qed.
+Print Assumptions T14_sort_is_sorted_perm.
+
+(* a non-string or non-ASCII result is an error; an ASCII string is returned as it is *)
+Theorem T14_result_checked : forall o,
+  check_result o = match o with
+                   | OutsideModel => PacOutside
+                   | Throws => PacErr
+                   | Val (JStr s) => if is_ascii s then PacOk s else PacErr
+                   | Val _ => PacErr
+                   end.
+Proof. exact (fun o => check_result_spec o (proj1 ob_result_checks) (proj2 ob_result_checks)). Qed.
+Print Assumptions T14_result_checked.
+
+(* exactly one of FindProxyForURL / FindProxyForURLEx *)
+Theorem T14_entry_point_exactly_one : forall has_fn has_fnx,
+  (entry_point has_fn has_fnx = EntryError <-> xorb has_fn has_fnx = false) /\
+  (entry_point has_fn has_fnx = EntryFn <-> has_fn = true /\ has_fnx = false) /\
+  (entry_point has_fn has_fnx = EntryFnEx <-> has_fn = false /\ has_fnx = true).
+Proof. exact (fun a c => entry_point_exactly_one a c ob_entry_both_is_error). Qed.
+Print Assumptions T14_entry_point_exactly_one.
+
+(* parsing a result entry: a well-formed entry is mapped to its proxy (keyword, host, port), an
+   unrecognised keyword is DIRECT (property C05 says so), everything malformed is rejected — for all strings *)
+Theorem T14_parse_entries : forall s, parse_proxy s = spec_parse s.
+Proof. exact (parse_proxy_is_spec
+  (eq_trans ob_parse_mode_arms (f_equal (map (fun m => (m, m))) ob_mode_consts))
+  ob_parse_mode_default ob_mode_direct ob_parse_proxy_shape). Qed.
+Print Assumptions T14_parse_entries.
+
+Theorem T14_first_entry : forall s,
+  proxies_first s = if nil_str s then Some direct
+                    else spec_parse (match split_byte 59 s with x :: _ => x | [] => [] end).
+Proof. exact (first_is_spec
+  (eq_trans ob_parse_mode_arms (f_equal (map (fun m => (m, m))) ob_mode_consts))
+  ob_parse_mode_default ob_mode_direct ob_parse_proxy_shape). Qed.
+Print Assumptions T14_first_entry.
+
+(* keyword to scheme: lower-cased keyword, PROXY reads as http, DIRECT has no URL; IPv6 hosts are bracketed *)
+Theorem T14_scheme_mapping : forall kw h p,
+  proxy_url {| p_mode := kw; p_host := h; p_port := p |} =
+  match spec_scheme kw with Some sc => Some (sc, join_host_port h p) | None => None end.
+Proof. exact (url_wellformed ob_mode_direct ob_url_mode_alias). Qed.
+Print Assumptions T14_scheme_mapping.
+
+(* the pool: in every reachable state no resolver is with two callers, and none that is out lies in the pool;
+   so a script whose result is a function of its arguments gives every caller the sequential answer *)
+Theorem T14_pool_exclusive : forall ls s,
+  psteps pinit ls = Some s ->
+  (forall c1 c2 v, In (c1, v) (held s) -> In (c2, v) (held s) -> c1 = c2) /\
+  (forall c v, In (c, v) (held s) -> ~ In v (free s)).
+Proof. exact pool_exclusive. Qed.
+Print Assumptions T14_pool_exclusive.
+
+(* Non-vacuity: concrete calls in the domain, with the expected answers. *)
+Example T14_example :
+  let e := {| e_dns4 := [(b "hi.test", [b "200.1.2.3"])]; e_dns := []; e_myip := []; e_myipex := []; e_ip6 := []; e_cidr6 := [] |} in
+  glob_domain (b "http://www.example.com/a.b") (b "http://*.example.com/*.?") = true /\
+  shExpMatch (b "http://www.example.com/a.b") (b "http://*.example.com/*.?") = Yes /\
+  isInNet e (b "hi.test") (b "200.1.0.0") (b "255.255.0.0") = true /\
+  isInNet e (b "128.0.0.1") (b "0.0.0.1") (b "127.255.255.255") = true /\
+  parse_proxy (b " HTTPS secure.example.com:443 ") = Some {| p_mode := b "HTTPS"; p_host := b "secure.example.com"; p_port := b "443" |} /\
+  parse_proxy (b "PROXY  a:1") = None /\
+  psteps pinit [Get 1; Get 2; Put 1; Drop; Get 3] <> None.
+Proof. exact (conj eq_refl (conj eq_refl (conj eq_refl (conj eq_refl (conj eq_refl (conj eq_refl
+  (fun E => eq_ind (psteps pinit [Get 1; Get 2; Put 1; Drop; Get 3])
+                   (fun o => match o with Some _ => True | None => False end) I None E))))))). Qed.
